@@ -125,6 +125,18 @@ def execute(cases, name, nchunks=8):
     bins = vlib.cargo_build(["directives"])
     vlib.run_bin(bins["directives"], env={"VH_IN": w / "cases.ndjson", "VH_OUT": w / "trace.ndjson"}, timeout=1800)
     lines = vlib.read_ndjson(w / "trace.ndjson")
+    # callsite registration is process-wide and its ORDER matters to caches (an event callsite registered before any span
+    # callsite the filter tracks): every 8th case also runs alone in a fresh process, where its script makes the first hits
+    fresh = [dict(c, idx=i) for i, c in enumerate(cases) if i % 8 == 3 and c.get("script")]
+
+    def one(c):
+        p = w / ("fresh_%d.ndjson" % c["idx"])
+        vlib.write_ndjson(p, [c])
+        o = w / ("fresh_%d.out.ndjson" % c["idx"])
+        vlib.run_bin(bins["directives"], env={"VH_IN": p, "VH_OUT": o}, timeout=300)
+        return vlib.read_ndjson(o)
+    for part in vlib.parallel(one, fresh, jobs=8):
+        lines += part
     found, results = trace.validate(D, "DirectivesTrace", lines, name, nchunks=nchunks, jobs=nchunks, tags=("BAD", "TVSE"), timeout=2400)
     return lines, found, results
 
